@@ -67,8 +67,8 @@ fn gen_order_args(r: &mut Rng, _unused: bool) -> Vec<V> {
         if !safe { return gen_val(r, 2); }
         match r.below(6) {
             0 => V::Boolean(r.chance(1, 2)),
-            1 | 2 => if mode == 0 { num(*r.pick(&[0.0, -0.0, 1.0, -1.0, 2.5, 10.0, 9.5, f64::INFINITY, f64::NEG_INFINITY, 1e300, 5e-324, 3.0, 3.0, 7.0])) } else { s(*r.pick(&["9", "10", "9.5", "1e3", "-0", "inf", "0"])) },
-            3 => s(*r.pick(&["", "a", "b", "ab", "B", "ä", "nan", "x1", "z"])),
+            1 | 2 => if mode == 0 { num(*r.pick(&[0.0, -0.0, 1.0, -1.0, 2.5, 10.0, 9.5, f64::INFINITY, f64::NEG_INFINITY, 1e300, 5e-324, 3.0, 3.0, 7.0])) } else { s(*r.pick(&["9", "10", "9.5", "1e3", "-0", "inf", "0", "9223372036854775807", "-9223372036854775808", "9223372036854775808", "9007199254740993", "1e19", "1e30"])) },
+            3 => s(*r.pick(&["", "a", "b", "ab", "B", "ä", "nan", "x1", "z", "\0", "a\0", "a\0\0", "id", "id\0", "ab\0c", "abcdefgh", "abcdefgh\0", "abcdefghi"])),
             4 => V::Array((0..r.below(3)).map(|_| if mode == 0 { num(r.below(4) as f64) } else { s(*r.pick(&["a", "9", "10"])) }).collect()),
             _ => if mode == 0 { num((r.below(41) as f64) - 20.0) } else { s(*r.pick(&["1", "2", "10", "a"])) },
         }
@@ -82,9 +82,10 @@ fn gen_date_num(r: &mut Rng) -> f64 {
         // the first and the last day chrono 0.4.45 represents (-262143-01-01, +262142-12-31) at several times of day: a zone offset of a few
         // hours moves these across the limit
         95026236.0, 95026236.04, 95026236.5, 95026236.96, 95026236.999, 95026237.0, -96465292.0, -96465291.999, -96465291.96, -96465291.5, -96465291.04, -96465293.0];
-    match r.below(8) {
+    match r.below(9) {
         0 => gen_num(r),
         1 | 2 => *r.pick(EDGE),
+        8 => { let e = *r.pick(EDGE); if e.is_finite() && e != 0.0 { let k = 1 + r.below(16); f64::from_bits(if r.chance(1, 2) { e.to_bits() + k } else { e.to_bits() - k }) } else { e } }
         _ => { let days = (r.below(3652059) as i64 - 719162) as f64; let ms = r.below(86400000) as f64; if r.chance(1, 3) { days } else { (days * 86400000.0 + ms) / 86400000.0 } }
     }
 }
@@ -221,6 +222,12 @@ pub fn gen_args(r: &mut Rng, name: &str) -> Vec<V> {
             let h = s(*r.pick(&["", "abc", "日本"]));
             match n { "re_replace" => vec![h, s(&p), s("x")], _ => vec![h, s(&p)] }
         }
+        n if n.starts_with("re_") && r.chance(1, 30) => {
+            // groups (or classes / repetitions) nested 51 … 60 000 levels: an error value, never a stack overflow
+            let k = *r.pick(&[51usize, 60, 100, 500, 2000, 20000, 60000]); let (o, c) = *r.pick(&[("(", ")"), ("(?:", ")"), ("(a|", ")"), ("(", ")*")]);
+            let p = format!("{}a{}", o.repeat(k), c.repeat(k)); let h = s("aaa");
+            match n { "re_replace" => vec![h, s(&p), s("x")], _ => vec![h, s(&p)] }
+        }
         n if n.starts_with("re_") => {
             let h = s(*r.pick(&["", "abc", "aaa", "a1b22c333", "Hello World", "äbc", "foo@bar.com", "2024-01-05"]));
             let p = sp(r, &["a", "a*", "(a)(b)?", "[0-9]+", "\\d+", "(", "a{1000000}", "^", "$", "b|c", "(?P<y>\\d{4})-(\\d\\d)", "\\b", ".", "", "((((((((((a))))))))))", "[", "\\", "(?i)HELLO", "ä"]);
@@ -249,7 +256,7 @@ pub fn gen_dcall_line(r: &mut Rng, f: &slac::function::Function) -> String {
         let kinds: Vec<u32> = (0..4).filter(|k| (mask >> k) & 1 == 1).collect();
         match *r.pick(&kinds) {
             0 => V::Boolean(r.chance(1, 2)),
-            1 => if r.chance(1, 2) { s(HAYS[r.usize(HAYS.len())]) } else { V::String(gen_str(r)) },
+            1 => if r.chance(1, 8) { s(*r.pick(&["$1", "$0$0", "${1}st", "$$", "a$1b", "$"])) } else if r.chance(1, 2) { s(HAYS[r.usize(HAYS.len())]) } else { V::String(gen_str(r)) },
             2 => if r.chance(1, 2) { num(*r.pick(IDX)) } else { num(gen_num(r)) },
             _ => { let k = r.below(4); V::Array((0..k).map(|_| gen_small_val(r)).collect()) }
         }
